@@ -16,6 +16,11 @@ loading raises OdxError iff an equal-priority clash between different objects st
 layer.decode(request of a service) finds exactly that service iff it is visible; a parent's observation is the
 same in the database without the child.  Three-valued where the standard is read in two ways: rank of
 ECU-SHARED-DATA relative to the other parent types, and diag variables handed through PROTOCOL layers.
+
+Re-resolution phase: for the small spaces every loaded hierarchy is refreshed again (idempotence) and then, for every
+single edit of a menu applied to the loaded object graph (drop the objects of one placement from a layer's raw
+data, drop one PARENT-REF, add one NOT-INHERITED entry), Database.refresh() must produce what the model says
+for the EDITED hierarchy and what a database freshly loaded from the edited description shows.
 """
 from __future__ import annotations
 
@@ -606,16 +611,18 @@ def full_observation(db: Any, case: Dict[str, Any], prefix: str, keep: List[int]
         l = db.diag_layers[lnames[i]]
         o: Dict[str, Any] = {}
         for cat in case["cats"]:
-            items = {"svc": lambda: l.services, "job": lambda: l.single_ecu_jobs, "gnr": lambda: l.global_negative_responses,
-                     "dop": lambda: l.diag_data_dictionary_spec.data_object_props,
-                     "struct": lambda: l.diag_data_dictionary_spec.structures,
-                     "table": lambda: l.diag_data_dictionary_spec.tables,
-                     "fc": lambda: getattr(l, "functional_classes", []), "sc": lambda: getattr(l, "state_charts", []),
-                     "aa": lambda: getattr(l, "additional_audiences", []),
-                     "ug": lambda: (l.diag_data_dictionary_spec.unit_spec.unit_groups if l.diag_data_dictionary_spec.unit_spec else []),
-                     "var": lambda: getattr(l, "diag_variables", [])}[cat]()
-            o[cat] = [(x.short_name, str(x.long_name).replace(prefix, "", 1),
-                       str(getattr(getattr(x, "odx_id", None), "local_id", "")).replace(prefix, "", 1)) for x in items]
+            ddds = l.diag_data_dictionary_spec
+            if cat in DDDS_GETTER:
+                items = getattr(ddds, DDDS_GETTER[cat])
+            else:
+                items = {"svc": lambda: l.services, "job": lambda: l.single_ecu_jobs, "gnr": lambda: l.global_negative_responses,
+                         "dop": lambda: ddds.data_object_props, "struct": lambda: ddds.structures, "table": lambda: ddds.tables,
+                         "fc": lambda: getattr(l, "functional_classes", []), "sc": lambda: getattr(l, "state_charts", []),
+                         "aa": lambda: getattr(l, "additional_audiences", []),
+                         "ug": lambda: (ddds.unit_spec.unit_groups if ddds.unit_spec else []),
+                         "var": lambda: getattr(l, "diag_variables", [])}[cat]()
+            o[cat] = sorted((x.short_name, str(x.long_name).replace(prefix, "", 1),
+                             str(getattr(getattr(x, "odx_id", None), "local_id", "")).replace(prefix, "", 1)) for x in items)
         o["decode"] = []
         if "svc" in case["cats"]:
             for ni in range(len(case["names"])):
@@ -681,6 +688,192 @@ def parent_unit(unit: Tuple[Any, ...]) -> Part:
 
 
 # ---------------------------------------------------------------------------------------------
+# re-resolution: edit the loaded object graph, Database.refresh(), compare with the model of the EDITED hierarchy
+# ---------------------------------------------------------------------------------------------
+RAW_ATTR = {"gnr": "global_negative_responses", "fc": "functional_classes", "sc": "state_charts", "aa": "additional_audiences"}
+DDDS_ATTR = dict(DDDS_GETTER, dop="data_object_props", struct="structures", table="tables")
+
+
+def edit_menu(case: Dict[str, Any]) -> List[List[Any]]:
+    """Every single edit: drop the objects of one (layer, name) placement; drop one PARENT-REF; add one
+    NOT-INHERITED entry (to the lists of the case) for a name the parent offers and that is not excluded yet."""
+    n, k = len(case["types"]), len(case["names"])
+    out: List[List[Any]] = []
+    for i in range(n):
+        for ni in range(k):
+            if case["place"][i][ni]:
+                out.append(["remove-objects", i, ni])
+    for i in range(n):
+        for p in case["parents"][i]:
+            out.append(["remove-parent-ref", i, p])
+    present: List[set] = []
+    for i in range(n):
+        pr = {ni for ni in range(k) if case["place"][i][ni]}
+        for p in case["parents"][i]:
+            for ni in sorted(present[p]):
+                if [i, p, ni] not in case["excl"]:
+                    out.append(["add-not-inherited", i, p, ni])
+            pr |= {ni for ni in present[p] if [i, p, ni] not in case["excl"]}
+        present.append(pr)
+    return out
+
+
+def edited_case(case: Dict[str, Any], edit: List[Any]) -> Dict[str, Any]:
+    c = dict(case, place=[list(r) for r in case["place"]], parents=[list(p) for p in case["parents"]],
+             excl=[list(e) for e in case["excl"]])
+    if edit[0] == "remove-objects":
+        c["place"][edit[1]][edit[2]] = 0
+    elif edit[0] == "remove-parent-ref":
+        c["parents"][edit[1]].remove(edit[2])
+        c["excl"] = [e for e in c["excl"] if not (e[0] == edit[1] and e[1] == edit[2])]
+    elif edit[0] == "add-not-inherited":
+        c["excl"].append([edit[1], edit[2], edit[3]])
+    return c
+
+
+def apply_edit(db: Any, case: Dict[str, Any], edit: List[Any]) -> List[Tuple[Any, str, Any]]:
+    """Perform the edit on the loaded object graph (raw layer data only); -> undo list [(object, attribute, old value)]."""
+    from odxtools.nameditemlist import NamedItemList
+    from odxtools.odxlink import OdxLinkRef
+    undo: List[Tuple[Any, str, Any]] = []
+    if edit[0] == "none":
+        return undo
+    lnames = eh.layer_names(case)
+    raw = db.diag_layers[lnames[edit[1]]].diag_layer_raw
+    cats = case["cats"]
+
+    def put(obj: Any, attr: str, value: Any) -> None:
+        undo.append((obj, attr, getattr(obj, attr)))
+        setattr(obj, attr, value)
+
+    if edit[0] == "remove-objects":
+        nm = case["names"][edit[2]]
+
+        def hit(x: Any, cs: List[str]) -> bool:
+            if isinstance(x, OdxLinkRef):
+                return any(x.ref_id.endswith("." + eh.spec_name(c, nm)) for c in cs)
+            return x.short_name in [eh.short_name(c, nm) for c in cs]
+
+        comm_cats = [c for c in ("svc", "job") if c in cats]
+        if comm_cats:
+            put(raw, "diag_comms_raw", [x for x in raw.diag_comms_raw if not hit(x, comm_cats)])
+        if "var" in cats and hasattr(raw, "diag_variables_raw"):
+            put(raw, "diag_variables_raw", [x for x in raw.diag_variables_raw if not hit(x, ["var"])])
+        for c, attr in RAW_ATTR.items():
+            if c in cats:
+                put(raw, attr, NamedItemList([x for x in getattr(raw, attr) if not hit(x, [c])]))
+        ddds = raw.diag_data_dictionary_spec
+        if ddds is not None:
+            for c, attr in DDDS_ATTR.items():
+                if c in cats:
+                    put(ddds, attr, NamedItemList([x for x in getattr(ddds, attr) if not hit(x, [c])]))
+            if "ug" in cats and ddds.unit_spec is not None:
+                put(ddds.unit_spec, "unit_groups", NamedItemList([x for x in ddds.unit_spec.unit_groups if not hit(x, ["ug"])]))
+    else:
+        prs = [pr for pr in raw.parent_refs if pr.layer_ref.ref_id == lnames[edit[2]]]
+        assert len(prs) == 1, "harness: PARENT-REF not found"
+        if edit[0] == "remove-parent-ref":
+            put(raw, "parent_refs", [pr for pr in raw.parent_refs if pr is not prs[0]])
+        else:
+            nm = case["names"][edit[3]]
+            attr_of = {"comms": "not_inherited_diag_comms", "dops": "not_inherited_dops", "tables": "not_inherited_tables",
+                       "gnrs": "not_inherited_global_neg_responses", "vars": "not_inherited_variables"}
+            for lst in case["excl_lists"]:
+                sn = [eh.short_name(c, nm) for c, (_, gov) in eh.CATEGORIES.items() if gov == lst and c in cats]
+                if sn:
+                    put(prs[0], attr_of[lst], list(getattr(prs[0], attr_of[lst])) + sn)
+    return undo
+
+
+def refresh_problems(loader: Loader, case: Dict[str, Any], edits: List[List[Any]], part: Optional[Part],
+                     differential: bool = True) -> List[Tuple[int, str, str]]:
+    """Load `case`, then for every edit in turn: apply it, db.refresh(), judge all layers against the model of the
+    edited case (and against a fresh load of the edited case), undo it.  -> [(edit index, key, detail)]"""
+    if any(p["conflicts"] for p in predict(case)):
+        return []
+    try:
+        db = loader.load([case])
+    except Exception:  # noqa -- business of the main phase
+        return []
+    n = len(case["types"])
+    out: List[Tuple[int, str, str]] = []
+    fresh_wanted: List[Tuple[int, Dict[str, Any], Any]] = []
+    for ei, edit in enumerate(edits):
+        ec = edited_case(case, edit)
+        preds = predict(ec)
+        undo = apply_edit(db, case, edit)
+        tag = f"C09/refresh/{edit[0]}/"
+        try:
+            db.refresh()
+        except Exception as e:  # noqa
+            probs = judge_error(ec, preds, e, "")
+            outcome = "error"
+        else:
+            probs = judge_loaded(ec, preds, db, "", None)
+            outcome = "loaded"
+            if differential and not probs and not any(p["conflicts"] for p in preds):
+                fresh_wanted.append((ei, ec, full_observation(db, ec, "", list(range(n)))))
+        for key, detail in probs:
+            # (one key per edit kind, category and kind of deviation; the parent-type detail stays in the text)
+            key = tag + ("decode-stale" if key.startswith("C09/decode/") else "/".join(key[len("C09/"):].split("/")[:3]))
+            out.append((ei, key, f"after {edit} and refresh(): {detail}"))
+        if part is not None:
+            part.count("refresh_evaluations")
+            part.count("refresh_" + outcome)
+            part.add("refresh_edit_kinds", edit[0])
+        for obj, attr, old in reversed(undo):
+            setattr(obj, attr, old)
+    # differential oracle: the refreshed database shows what a database freshly loaded from the edited case shows
+    for lo in range(0, len(fresh_wanted), BATCH):
+        chunk = fresh_wanted[lo:lo + BATCH]
+        try:
+            fdb = loader.load([ec for _, ec, _ in chunk])
+        except Exception:  # noqa -- business of the main phase
+            continue
+        for slot, (ei, ec, seen) in enumerate(chunk):
+            prefix = f"k{slot}_" if len(chunk) > 1 else ""
+            fresh = full_observation(fdb, ec, prefix, list(range(n)))
+            if part is not None:
+                part.count("refresh_differential_comparisons")
+            for i in range(n):
+                if seen[i] != fresh[i]:
+                    cat = next(c for c in seen[i] if seen[i][c] != fresh[i][c])
+                    out.append((ei, f"C09/refresh/{edits[ei][0]}/" + ("decode-stale" if cat == "decode" else f"differs-from-fresh-load/{cat}"),
+                                f"after {edits[ei]} and refresh() layer {i} ({case['types'][i]}) shows {seen[i][cat]}, a database "
+                                f"loaded from the edited description shows {fresh[i][cat]}"))
+                    break
+    return out
+
+
+def refresh_unit(unit: Tuple[Any, ...]) -> Part:
+    types, parents, k, kinds, full, differential = unit
+    part = Part()
+    loader = Loader()
+    try:
+        for case in configurations(types, parents, k, kinds, False, full):
+            edits = [["none"]] + edit_menu(case)
+            found = refresh_problems(loader, case, edits, part, differential)
+            part.count("refresh_cases")
+            done = set()
+            for ei, key, detail in found:
+                if (ei, key) in done:
+                    continue
+                done.add((ei, key))
+                # a finding of the edit sequence is reported for the single edit (on a database that was used:
+                # refreshed and probed once before the edit) if that alone shows it
+                single = [["none"]] + ([edits[ei]] if ei else [])
+                alone = refresh_problems(loader, case, single, None)
+                if any(k2 == key for _, k2, _ in alone):
+                    part.violation(key, {"mode": "refresh", "case": case, "edits": single}, detail)
+                else:
+                    part.violation(key + "/only-after-earlier-edits", {"mode": "refresh", "case": case, "edits": edits[:ei + 1],
+                                                                      "at": ei, "key": key}, detail)
+    finally:
+        loader.close()
+    return part
+
+
+# ---------------------------------------------------------------------------------------------
 def is_chain_or_diamond(types: Sequence[str], parents: Sequence[Sequence[int]]) -> bool:
     """5-layer shapes kept in the thorough tier: the full chain through all five types and hierarchies with a
     single childless layer in which every layer has at most two parents and some layer is reached on two paths."""
@@ -693,19 +886,23 @@ def is_chain_or_diamond(types: Sequence[str], parents: Sequence[Sequence[int]]) 
     return "diamond" in tags or all(len(ps) <= 1 for ps in parents)
 
 
-def plan(quick: bool) -> Tuple[List[Tuple[Any, ...]], List[Tuple[Any, ...]], Dict[str, Any]]:
+def plan(quick: bool) -> Tuple[List[Tuple[Any, ...]], List[Tuple[Any, ...]], List[Tuple[Any, ...]], Dict[str, Any]]:
     units: List[Tuple[Any, ...]] = []
     punits: List[Tuple[Any, ...]] = []
+    runits: List[Tuple[Any, ...]] = []
     bounds: Dict[str, Any] = {}
     if quick:
         spaces = [(1, 2, (0, 1, 2), True, True, 1), (2, 2, (0, 1, 2), True, True, 1), (3, 1, (0, 1, 2), True, True, 2),
                   (3, 2, (0, 1), False, False, 4), (4, 1, (0, 1), False, False, 2)]
         pspaces = [(2, 1, (0, 1)), (3, 1, (0, 1))]
+        rspaces = [(1, 2, (0, 1, 2), True, True), (2, 2, (0, 1, 2), True, True), (3, 1, (0, 1), False, False)]
     else:
         spaces = [(1, 2, (0, 1, 2), True, True, 1), (2, 2, (0, 1, 2), True, True, 1), (3, 1, (0, 1, 2), True, True, 2),
                   (3, 2, (0, 1, 2), True, False, 16), (4, 1, (0, 1, 2), False, False, 4), (4, 2, (0, 1), False, False, 0),
                   (5, 1, (0, 1), False, False, 4)]
         pspaces = [(2, 2, (0, 1, 2)), (3, 1, (0, 1, 2)), (4, 1, (0, 1))]
+        rspaces = [(1, 2, (0, 1, 2), True, True), (2, 2, (0, 1, 2), True, True), (3, 1, (0, 1, 2), True, True),
+                   (3, 2, (0, 1), False, True), (4, 1, (0, 1), False, False)]
     desc = []
     for n, k, kinds, skew, full, nsh in spaces:
         hs = ri.hierarchies(n)
@@ -729,18 +926,25 @@ def plan(quick: bool) -> Tuple[List[Tuple[Any, ...]], List[Tuple[Any, ...]], Dic
     for n, k, kinds in pspaces:
         for types, parents in ri.hierarchies(n):
             punits.append((types, parents, k, kinds))
+    for n, k, kinds, full, diff in rspaces:
+        for types, parents in ri.hierarchies(n):
+            runits.append((types, parents, k, kinds, full, diff))
+    bounds["refresh_phase"] = [f"{n} layers x {k} name(s), kinds {list(kinds)}, {'19' if full else '11'} categories: every case that "
+                               f"loads x (second refresh + every single edit: remove the objects of one placement / remove one "
+                               f"PARENT-REF / add one NOT-INHERITED entry), {'with' if diff else 'without'} the comparison against "
+                               f"a fresh load of the edited description" for n, k, kinds, full, diff in rspaces]
     bounds["spaces"] = desc
     bounds["parent_view_phase"] = [f"{n} layers x {k} name(s), kinds {list(kinds)}" for n, k, kinds in pspaces]
     bounds["allowed_parent_types"] = {k: list(v) for k, v in ri.ALLOWED_PARENTS.items()}
     bounds["categories_core"] = eh.ALL_CATS
     bounds["categories_all"] = eh.FULL_CATS
     bounds["batch"] = BATCH
-    return units, punits, bounds
+    return units, punits, runits, bounds
 
 
 def run(ctx: Ctx) -> None:
     Loader.sweep()
-    units, punits, bounds = plan(ctx.quick)
+    units, punits, runits, bounds = plan(ctx.quick)
     ctx.bounds = bounds
     ctx.rule = ("every hierarchy (up to renaming of layers) within the layer bound x every placement of the names x every "
                 "NOT-INHERITED set; non-trivial = distinct (hierarchy, per-layer source of every visible object, exclusions, "
@@ -757,8 +961,9 @@ def run(ctx: Ctx) -> None:
     ]
     pmap(ctx, explore_unit, units)
     pmap(ctx, parent_unit, punits)
+    pmap(ctx, refresh_unit, runits)
     c = ctx.counts
-    c["evaluations"] = c.get("evaluations", 0) + c.get("parent_view_cases", 0)
+    c["evaluations"] = c.get("evaluations", 0) + c.get("parent_view_cases", 0) + c.get("refresh_evaluations", 0)
     only_h = ctx.sets.pop("esd_only_highest", set())
     only_l = ctx.sets.pop("esd_only_lowest", set())
     if only_h and only_l:
@@ -777,6 +982,9 @@ def run(ctx: Ctx) -> None:
     ctx.guard("cases with partial exclusion lists seen", c.get("cases_with_partial_exclusion_lists", 0) > 0)
     ctx.guard("decode() found visible and rejected invisible services", c.get("decode_found", 0) > 0 and c.get("decode_rejected", 0) > 0)
     ctx.guard("parent views compared with the database without the child", c.get("parent_view_comparisons", 0) > 0)
+    ctx.guard("refresh phase: every edit kind applied, refreshes that succeed and that report a clash both seen",
+              ctx.sets.get("refresh_edit_kinds", set()) == {"none", "remove-objects", "remove-parent-ref", "add-not-inherited"}
+              and c.get("refresh_loaded", 0) > 0 and c.get("refresh_error", 0) > 0 and c.get("refresh_differential_comparisons", 0) > 0)
     ctx.guard("three-valued cases are a minority", c.get("three_valued_cases", 0) * 2 < max(1, c.get("hierarchies_loaded", 0)))
 
 
@@ -792,6 +1000,11 @@ def replay(case: Any) -> List[Tuple[str, str]]:
             alone, _ = run_single(loader, cases[slot], None)
             keys1 = {k for k, _ in alone}
             return [("C09/batch/finding-only-in-shared-database", f"{k}: {d}") for k, d in probs if k not in keys1]
+        if case.get("mode") == "refresh":
+            found = refresh_problems(loader, case["case"], case["edits"], None)
+            if "at" in case:
+                return [(k + "/only-after-earlier-edits", d) for ei, k, d in found if ei == case["at"] and k == case["key"]]
+            return [(k, d) for _, k, d in found]
         if case.get("mode") == "pair":
             ranks = []
             for c in case["cases"]:
